@@ -10,6 +10,7 @@ buffers around the window for every call (harness oracles in release and debug p
 -/
 import MinizProof.Props.C05
 import MinizProof.Lemmas.CoreCall
+import MinizProof.Lemmas.VecLoops
 namespace C08
 
 /-- End of the window, for all `len, pos ≤ len, budget` below 2^64 (symbolic). -/
@@ -88,6 +89,24 @@ theorem driver_loop_progress (r : Regs) (inp out : Array UInt8) (outPos budget f
   rcases hs with hs | hs
   · have := h.nmi (Or.inl hs); omega
   · have := h.hmo hs; omega
+
+/-! ### The size-limited vector functions (`Model.Vec.decompressToVec`, tied by the VECI correspondence) -/
+/-- `decompress_to_vec*_with_limit` never returns more than the limit — neither as a result nor as
+    the partial output carried by an error — for EVERY behaviour of the inner decoder (the inner
+    calls are a script), every input length and every limit. -/
+theorem vec_limit_respected (inLen maxOut : Nat) (script : List Model.Vec.Resp) :
+    (Model.Vec.decompressToVec inLen maxOut script).len ≤ maxOut :=
+  Model.Vec.decompressToVec_len_le inLen maxOut script
+
+/-- The doubling loop cannot spin: starting from a non-empty buffer, after at most `limit − len + 1`
+    has-more-output answers it has returned. -/
+theorem vec_doubling_terminates (maxOut n : Nat) (rs : List Model.Vec.Resp) (inLeft bufLen outPos : Nat)
+    (calls : List Model.Vec.Call) (hpos : 0 < bufLen) (hn : maxOut - bufLen < n) (hl : n ≤ rs.length) :
+    ∀ cs, Model.Vec.inflLoop maxOut inLeft bufLen outPos calls rs ≠ .stuck cs :=
+  Model.Vec.inflLoop_terminates maxOut n rs inLeft bufLen outPos calls hpos hn hl
+
+example : Model.Vec.decompressToVec 3 5 [⟨2, 1, 5⟩, ⟨2, 0, 0⟩] = .err 2 5 [(3, 5, 0)] := by decide
+example : Model.Vec.decompressToVec 3 50 [⟨2, 1, 6⟩, ⟨0, 2, 3⟩] = .ok 9 [(3, 6, 0), (2, 12, 6)] := by decide
 
 example : (decompress {} #[0x01, 0x01, 0x00, 0xfe, 0xff, 0x41] (Array.replicate 4 0) 1 8 4).written = 1 := by
   decide +kernel
